@@ -551,7 +551,9 @@ func (s *Server) fieldsToTypedMaps(fields models.Fields) (
 			}
 			bools[k] = value
 		default:
-			panic("unsupported field value type")
+			// Fields of other types (e.g. durations) cannot be sent to a UDF.
+			// Skip the field, a single data point must not crash the process.
+			s.diag.Error("skipping field with unsupported value type", fmt.Errorf("field %q has type %T", k, v))
 		}
 	}
 	return
